@@ -95,7 +95,7 @@ a_real a_mf_tri(a_real x, a_real a, a_real b, a_real c)
         }
         else /* c <= x */
         {
-            x = 0;
+            x = (x > b) ? 0 : 1; /* b == c: x is the peak itself */
         }
     }
     return x;
